@@ -68,7 +68,7 @@ func runAdapterRaw(verif, root, fn, obl, label, kind string, vals map[string]str
 	cmd.Dir = root
 	cmd.Env = append(os.Environ(), "GOFLAGS=-mod=mod", "GOPROXY=off", "GOSUMDB=off", "GOTOOLCHAIN=local",
 		"GOVC_MODEL="+string(mb), "GOVC_OBLIGATION="+obl, "GOVC_LABEL="+label, "GOVC_KIND="+kind)
-	if kind == "thorough" {
+	if kind == "thorough" || kind == "subset" {
 		cmd.Env = append(cmd.Env, "GOVC_ALL=1")
 	}
 	out, _ := cmd.CombinedOutput()
